@@ -21,7 +21,7 @@ from . import common
 
 ID = 'C18'
 LEVEL = 'exploration'
-RUNS = {'quick': 12000, 'thorough': 300000}
+RUNS = {'quick': 60000, 'thorough': 400000}
 SIM_TIME_UNIT = 'samples / dense time units'
 RULE = ('seeded generation of (law, operand formulas p and q, bounds, monitor kind that supports both sides, data, schedule); every '
         'update is a checked history for the online kinds; non-trivial = the common output is finite somewhere and not constant; '
@@ -90,6 +90,9 @@ def gen(rng, tier):
         if sg.vars_of(p) and sg.vars_of(q):
             break
     mb = 4 if not dense else 8
+    medium = (not dense) and rng.random() < 0.12
+    if medium:
+        mb = rng.choice([9, 12, 16])      # windows wider than 8 samples, quantised signals (see below)
 
     def bnd():
         lo = rng.randint(0, mb)
@@ -120,7 +123,9 @@ def gen(rng, tier):
             sc['signals'] = dict((v, [[t * k, x] for t, x in sc['signals'][v]]) for v in sc['signals'])
     else:
         sc['n'] = rng.randint(1, 10) + (int(sg.horizon(lhs)) if pastify else 0)
-        sc['data'] = world.gen_trace(rng, vars_, sc['n'])
+        if medium:
+            sc['n'] += rng.randint(mb, 2 * mb)
+        sc['data'] = world.gen_trace(rng, vars_, sc['n'], style=('plateau' if medium and rng.random() < 0.6 else None))
         if same_numerals:
             sc['same_numerals'] = same_numerals
             sc['notation'] = {'period': 1, 'pu': same_numerals['fine'], 'du': same_numerals['fine'], 'tol': 0.1, 'style': 'plain'}
